@@ -53,7 +53,7 @@ def c18_jobs(tier):
 
 
 def c16_jobs(tier):
-    return [sim("c16-crashpoints", "c16", require_counters=["abandoned_mid_flight", "abandoned_with_full_mailbox_seen", "dropped_while_parked", "names_reused_after_abandonment"]),
+    return [sim("c16-crashpoints", "c16", require_counters=["abandoned_mid_flight", "abandoned_with_full_mailbox_seen", "dropped_while_parked", "names_reused_after_abandonment", "retried_deletes_answered"]),
             # an abandoned DeleteSubscription followed at once by a create of the same name, with the push loop running
             sim("c16-lifecycle", "c14r", require_counters=["recreated_behind_an_abandoned_delete"], require_nontrivial=False)]
 
@@ -64,7 +64,7 @@ def c14_jobs(tier):
 
 
 def c02_jobs(tier):
-    jobs = [sim("c02-seq", "c02", require_counters=["effective_acks", "stale_unknown_repeated_acks", "deadline_crossings_after_ack"]),
+    jobs = [sim("c02-seq", "c02", require_counters=["effective_acks", "stale_unknown_repeated_acks", "deadline_crossings_after_ack", "acks_sent_over_a_stream"]),
             conc("c02-conc", "c03", params={"n": 1500 if tier == "quick" else 20000}, require_counters=["certainly_effective_acks"]),
             sim("c02-stream-mixed", "c05", require_nontrivial=False)]
     if tier == "thorough":
@@ -133,6 +133,9 @@ def c01_jobs(tier):
     jobs.append(sim("c01-modify-grid", "c05", require_nontrivial=False))
     # push consumers: a message the endpoint refused keeps being POSTed until it is accepted
     jobs.append(sim("c01-push", "c14", require_nontrivial=False))
+    # pull subscriptions that live beside push subscriptions (creates, rejected creates, deletes, name
+    # reuse): what is published to them reaches their own consumers
+    jobs.append(sim("c01-push-lifecycle", "c14r", require_counters=["pull_only_read_back"], require_nontrivial=False))
     if tier == "thorough":
         jobs.append(conc("c01-conc-h2", "c01", transport="h2"))
         jobs.append(asan_mt("c01-asan-mt", "conc", params={"profile": "c01"}, crash_property="C01"))
@@ -172,7 +175,9 @@ def c09_jobs(tier):
 
 def c06_jobs(tier):
     jobs = [sim("c06-wake", "c06", require_counters=["quiescent_points_with_waiter", "wakeups_by_publish", "wakeups_by_nack", "wakeups_by_expiry", "hand_on_wakeups", "cancelled_in_the_instant_of_notify", "cancel_with_saturated_mailbox", "nacks_in_mixed_control_message"]),
-            sim("c06-wake-noyield", "c06", params={"yields": 0})]
+            sim("c06-wake-noyield", "c06", params={"yields": 0}),
+            # parked consumers met by one publish that makes the backlog 65536, 65537, ... 131075 long
+            sim("c06-big-publishes", "c15", params={"only_big": 1}, require_nontrivial=False)]
     if tier == "thorough":
         jobs.append(sim("c06-wake-h2", "c06", transport="h2"))
     return jobs
